@@ -7,6 +7,7 @@ package main
 // Trace lines:  SAVE h issuer receiver | res     REM h addr | res     READ addr | h1,h2,…
 
 import (
+	"encoding/hex"
 	"sync/atomic"
 	"errors"
 	"fmt"
@@ -65,6 +66,15 @@ func init() {
 				// awaiting index (no trace line: for the model these calls do not exist)
 				if c.Rnd.Intn(3) == 0 {
 					a := w.wallets[c.Rnd.Intn(3)].Address()
+					// the balance cache is keyed by whatever receiver / issuer string a sealed transfer carries (the
+					// notary and gossip handlers pass the transaction's address fields on unchecked): a string
+					// shaped like one of the index's own keys is as good as any
+					switch c.Rnd.Intn(4) {
+					case 0:
+						a = "address-" + a
+					case 1:
+						a = "trx-" + hex.EncodeToString(t.Hash[:])
+					}
 					switch c.Rnd.Intn(3) {
 					case 0:
 						hc.SaveBalance(a, spice.Melange{Currency: uint64(step), SupplementaryCurrency: 7})
@@ -394,6 +404,77 @@ func init() {
 			}
 			hc.Close()
 		}
+		// ---- a removal racing saves of the SAME transaction (the receiver confirms while another copy of the
+		// proposal arrives by gossip): afterwards the transaction is either gone, or stored AND listed for both
+		// parties - never stored (a further save is refused as a duplicate) but listed for nobody
+		{
+			hc, err := cache.New(1000, 1024)
+			if err != nil {
+				return err
+			}
+			iss, rec := w.wallets[1], w.wallets[2]
+			rr := 400
+			if c.Tier == "thorough" {
+				rr = 6000
+			}
+			for r := 0; r < rr; r++ {
+				t := w.NewTrx(iss, rec.Address(), spice.Melange{}, []byte{byte(r), byte(r >> 8), 11})
+				first := t
+				hc.SaveAwaitedTransaction(&first)
+				start := make(chan struct{})
+				var wg sync.WaitGroup
+				var removed atomic.Bool
+				for g := 0; g < 3; g++ {
+					wg.Add(1)
+					go func() {
+						defer wg.Done()
+						<-start
+						for k := 0; k < 40 && !removed.Load(); k++ {
+							cp := t
+							hc.SaveAwaitedTransaction(&cp)
+						}
+						cp := t
+						hc.SaveAwaitedTransaction(&cp)
+					}()
+				}
+				wg.Add(1)
+				go func() {
+					defer wg.Done()
+					<-start
+					hc.RemoveAwaitedTransaction(t.Hash, rec.Address())
+					removed.Store(true)
+				}()
+				close(start)
+				wg.Wait()
+				checked++
+				c.Rep.Evals++
+				probe := t
+				stored := hc.SaveAwaitedTransaction(&probe) != nil // refused as already awaiting; else the probe itself stored it
+				bad := ""
+				for _, a := range []string{iss.Address(), rec.Address()} {
+					got, _ := hc.ReadTransactions(a)
+					n := 0
+					for _, x := range got {
+						if x.Hash == t.Hash {
+							n++
+						}
+					}
+					if n != 1 && bad == "" {
+						bad = fmt.Sprintf("a removal raced saves of the same transaction; now a further save is %s, and the transaction is listed %d times for %s",
+							map[bool]string{true: "refused as a duplicate", false: "accepted"}[stored], n, w.A(a))
+					}
+				}
+				if bad != "" {
+					lost++
+					c.Violate("C17", "remove-racing-save-leaves-unlisted-entry", fmt.Sprintf("%s (round %d)", bad, r),
+						map[string]interface{}{"section": "await", "scenario": "remove-racing-save", "round": r})
+					break
+				}
+				hc.RemoveAwaitedTransaction(t.Hash, rec.Address())
+			}
+			hc.Close()
+		}
+		c.Distinct("remove-racing-save")
 		c.Distinct("concurrent-duplicate-saves")
 		c.Rep.Extra["concurrent_rounds"] = checked
 		c.Rep.Extra["concurrent_rounds_with_lost_entries"] = lost
